@@ -50,7 +50,7 @@ class FixSyntax:
             word_finder = worder.Worder(self.code, True)
             expression = word_finder.get_primary_at(offset)
             expression = expression.replace("\\\n", " ").replace("\n", " ")
-            lineno = self.code.count("\n", 0, offset)
+            lineno = self.code.count("\n", 0, offset) + 1
             scope = pymodule.get_scope().get_inner_scope_for_line(lineno)
             return evaluate.eval_str(scope, expression)
 
